@@ -281,7 +281,7 @@ def units(tier, seed):
             continue
         if op.npfn is None and not (op.name.startswith('inv') or op.name.startswith('solve')):
             continue
-        add('zeroth/%s/D%d,P%d' % (op.name, D, P), 'h_zeroth', opname=op.name, D=D, P=P)
+        add('zeroth/%s/D%d,P%d' % (op.name, D, P), 'h_zeroth', o=({'float_rel': 1e-12, 'exact_eval': True} if 'tight' in op.tags else None), opname=op.name, D=D, P=P)
         if len(op.args) == 1 and op.group in ('elementwise', 'special') and op.args[0].dom in ('any', 'gtm1', 'abs1', 'unit', 'pos'):
             add('zeroth/%s/tiny argument/D2,P1' % op.name, 'h_zeroth', o={'float_rel': 1e-11}, opname=op.name, D=2, P=1, scale='1/10000000000000')
     for cmpop in CMP:
